@@ -399,6 +399,7 @@ func (e *Exec) observedEval() []string {
 }
 
 func shortSite(s string) string {
+	s = strings.ReplaceAll(s, repoDir+"/", "")
 	s = strings.ReplaceAll(s, "/repo/", "")
 	s = strings.ReplaceAll(s, "github.com/flosch/pongo2/v6.", "")
 	return s
